@@ -298,7 +298,7 @@ def run(res, tier):
     for i, p in enumerate(E.explore(body, max_visits=3, nomut=[r"."])):
         evs = p.events
         for x, e in enumerate(evs):
-            if e.kind == "call" and re.search(r"fatal::remove_all$", e.name):
+            if e.kind == "call" and re.search(r"(^|::)remove_all$", e.name):
                 start = max([y for y, f in enumerate(evs[:x]) if f.kind == "call" and f.name.endswith("Iterator::next")] or [0])
                 prev = [f for f in evs[start:x] if f.kind == "call" and re.search(r"HashSet::contains$", f.name)]
                 n6 += 1
@@ -315,6 +315,27 @@ def run(res, tier):
             if not any(e.kind == "call" and re.search(r"HashSet.*::iter$|::iter$|RwLock.*::read$", e.name) for e in p.events[:rm[0]]):
                 fn = mprop.write_cex(res, "rsync_cleanup_order_%d" % i, p, E, "removal starts before this run's modules were added to the retain set")
                 res.violation("mir:rsync-cleanup-before-retain", "rsync cleanup deletes before registering the modules used in this run", fn)
+    # host level: a host directory is removed only if the retain set has no entry for it or cleanup_host said so
+    for i, p in enumerate(E.explore(body, max_visits=2, nomut=[r"."])):
+        evs = p.events
+        for x, e in enumerate(evs):
+            if not (e.kind == "call" and re.search(r"(^|::)remove_all$", e.name)):
+                continue
+            start = max([y for y, f in enumerate(evs[:x]) if f.kind == "call" and f.name.endswith("Iterator::next")] or [0])
+            it = evs[start:x]
+            get = [f for f in it if f.kind == "call" and re.search(r"HashMap::get$", f.name)]
+            ch = [f for f in it if f.kind == "call" and re.search(r"cleanup_host$", f.name)]
+            n6 += 1
+            ok = True
+            if ch:
+                v = mir.peek(E, p.mem, (("o", ch[-1].dest.get(()).id), ("v", "Ok"), ("f", 0))) if isinstance(ch[-1].dest.get(()), mir.Opq) else ch[-1].dest.get((("v", "Ok"), ("f", 0)))
+                ok = v is not None and mir.is_z(v) and must(E, p, z3.Not(v))
+            elif get:
+                d = disc_of(E, p, get[-1])
+                ok = d is not None and must(E, p, d == 0)
+            if not ok:
+                fn = mprop.write_cex(res, "rsync_remove_kept_host_%d" % i, p, E, "host directory removed although the retain set has modules for it and cleanup_host kept some")
+                res.violation("mir:rsync-removes-retained-host", "the directory of an rsync host with retained modules is deleted", fn)
     total += n6
     res.distinct += total
     check_retain_keys(res, E)
